@@ -568,6 +568,13 @@ def oracleC03 (p : Parsed) (fs : List (String × String)) (clean : Bool := false
         | _ => if code == 0 then s "application/" ++ o.ccodec else s "application/json"
       if ct != wantCT then some ("content-type is not the client protocol's: " ++ toHex ct) else
       if endS.startsWith "hdr:" && cb != "-" then some "message data next to a trailers-only end" else
+      -- a gRPC response whose end is in the head (trailers-only) must not announce or send the status a second
+      -- time as HTTP trailers: a client that reads the trailers gets a status without the details of the head
+      let ctr := parseHdrField (fieldOf fs "ct")
+      let declaresStatus := (ch.values (s "Trailer")).any fun v =>
+        (splitOn 0x2C v).any fun k => canonKey (trimSpace k) == s "Grpc-Status" || canonKey (trimSpace k) == s "Grpc-Message"
+      if o.cform == .grpc && endS.startsWith "hdr:" && (declaresStatus || ctr.has (s "Grpc-Status") || ctr.has (s "Grpc-Message")) then
+        some "the gRPC status is in the response head and announced or sent again as HTTP trailers (without the details of the head)" else
       -- with a well-behaved backend: a frame flagged compressed must inflate under the compression the response declares
       let encKey : Bytes := match o.cform with
         | .grpc | .grpcWeb => s "Grpc-Encoding"
